@@ -1,8 +1,9 @@
 """C19 -- encodings do not depend on how the text is organised (DESIGN.md section 4 C19)."""
 import ast
+import re
 
 from ..model import AnalysisError, Model, walk_no_nested, norm_stmt, names_in
-from .. import flow, dispatch, copyrule
+from .. import flow, dispatch, copyrule, sem
 
 EXPLANATION = (
     'A referenced type must be seen exactly like the same type written inline.  Decided: (R1a) every compiler method configures a '
@@ -110,25 +111,42 @@ def check(ctx):
 
     # ---- R2
     cv = model.func(PARSER, 'convert_value')
+    cvp = set(flow.param_names(cv))
+    cvv = sem.View(cv)
     syn = []
     for node in walk_no_nested(cv):
-        if isinstance(node, ast.Compare) and isinstance(node.left, ast.Name) and node.left.id == 'type_' and isinstance(node.ops[0], ast.Eq) \
-                and isinstance(node.comparators[0], ast.Constant):
-            syn.append(node.comparators[0].value)
+        if isinstance(node, ast.Compare) and len(node.ops) == 1 and isinstance(node.ops[0], ast.Eq):
+            for a_, b_ in ((node.left, node.comparators[0]), (node.comparators[0], node.left)):
+                if isinstance(b_, ast.Constant) and isinstance(b_.value, str) and isinstance(cvv.expr(a_), ast.Name) and cvv.expr(a_).id in cvp and b_.value not in syn:
+                    syn.append(b_.value)
     if not syn:
-        raise AnalysisError('convert_value no longer dispatches on type_')
+        raise AnalysisError('convert_value no longer dispatches on the syntactic type')
     pd = model.func(BASE, 'Compiler.pre_process_default_value')
+    comp_cls = pd._cls
+    helpers = [pd]
+    for _ in range(2):
+        for g in list(helpers):
+            for c_ in walk_no_nested(g):
+                if isinstance(c_, ast.Call) and isinstance(c_.func, ast.Attribute) and isinstance(c_.func.value, ast.Name) and c_.func.value.id == 'self':
+                    r_ = comp_cls.find_method(c_.func.attr)
+                    if r_ and r_[1] not in helpers and r_[1].name.startswith('pre_process_default'):
+                        helpers.append(r_[1])
     res = set()
-    for node in walk_no_nested(pd):
-        if isinstance(node, ast.Compare) and isinstance(node.ops[0], ast.Eq) and isinstance(node.comparators[0], ast.Constant) \
-                and 'resolved' in ast.unparse(node.left) and "['type']" in ast.unparse(node.left):
-            res.add(node.comparators[0].value)
+    for g in helpers:
+        gv = sem.View(g)
+        for node in walk_no_nested(g):
+            if isinstance(node, ast.Compare) and len(node.ops) == 1 and isinstance(node.ops[0], ast.Eq):
+                for a_, b_ in ((node.left, node.comparators[0]), (node.comparators[0], node.left)):
+                    if isinstance(b_, ast.Constant) and isinstance(b_.value, str):
+                        t_ = gv.text(a_)
+                        if 'resolve' in t_ and t_.endswith("['type']"):
+                            res.add(b_.value)
     # the untyped fallback of convert_value
     fallback_same = set()
-    src = ast.unparse(cv)
-    if 'convert_number(tokens[0])' in src:
+    p0 = flow.param_names(cv)[0]
+    if any(cvv.text(c_.args[0]) == '%s[0]' % p0 for c_ in sem.method_calls(cv, 'convert_number', cvv) if c_.args):
         cn = model.func(PARSER, 'convert_number')
-        if 'int(' in ast.unparse(cn):
+        if any(isinstance(c_, ast.Call) and isinstance(c_.func, ast.Name) and c_.func.id == 'int' for c_ in walk_no_nested(cn)):
             fallback_same.add('INTEGER')     # int(tokens[0]) == convert_number(tokens[0]) for digit strings
     for k in syn:
         ok = k in res or k in fallback_same
@@ -166,47 +184,124 @@ def check(ctx):
                               "codec %s consumes '%s' for inline types only: a constrained reference `U ::= T (...)` is compiled as plain T "
                               '(different bytes than the inline spelling)' % (codec, k), stmt="key '%s' not in tail" % k)
 
-    # ---- R4
+    # ---- R4   lookup_in_modules(section, debug_string, name, module_name) = (ARG0, ARG1, ARG2, ARG3)
     f = model.func(BASE, 'Compiler.lookup_in_modules')
-    first_if = [s for s in f.body if isinstance(s, ast.If)]
-    ok = bool(first_if) and ast.unparse(first_if[0].test) == 'name in module[section]' and isinstance(first_if[0].body[0], ast.Return) \
-        and 'module[section][name], module_name' in ast.unparse(first_if[0].body[0])
+    ps = sem.paths(f, positional=True)
+    if ps is None:
+        raise AnalysisError('lookup_in_modules: too many paths')
+    allp = sem.with_loop_bodies(ps)
+    own = re.compile(r'^ARG2 in .+\[ARG3\]\[ARG0\]$')
+    own_true = [p for p in allp if p.outcome[0] == 'return' and any(own.match(c[0]) and c[1] for c in p.conds)]
+    ok = bool(own_true)
+    for p in own_true:
+        e = p.outcome[3]
+        if not (isinstance(e, ast.Tuple) and len(e.elts) == 2 and sem.ctext(e.elts[1]) == 'ARG3' and re.match(r'^.+\[ARG3\]\[ARG0\]\[ARG2\]$', sem.ctext(e.elts[0]))):
+            ok = False
+        if p.calls('lookup_in_modules') or any(ev[0] == 'loop' for ev in p.events):
+            ok = False
+    # the imports are consulted only after the own module did not have the name
+    for p in allp:
+        if p.calls('lookup_in_modules') or any(ev[0] == 'loop' for ev in p.events):
+            if not any(own.match(c[0]) and not c[1] for c in p.conds):
+                ok = False
     ctx.instance('C19.R4', 'lookup_in_modules: own module first', 'ok' if ok else 'VIOLATION', node=f, file=BASE)
     if not ok:
         ctx.violation('C19.R4', BASE, f, Model.qual(f), 'the own module is no longer searched before the imports', stmt='own module first')
-    rec = [c for c in walk_no_nested(f) if isinstance(c, ast.Call) and ast.unparse(c.func) == 'self.lookup_in_modules']
-    ok = len(rec) == 1 and ast.unparse(rec[0].args[-1]) == 'from_module_name' and ast.unparse(rec[0].args[2]) == 'name'
-    ctx.instance('C19.R4', 'lookup_in_modules: recursion through the exporting module', 'ok' if ok else 'VIOLATION', node=f, file=BASE)
-    if not ok:
+    rec_ok = False
+    imp_ok = False
+    nrec = 0
+    for p in allp:
+        for ev in p.events:
+            if ev[0] == 'call' and sem.callee_name(ev[2]) == 'lookup_in_modules' and len(ev[3].args) >= 4:
+                nrec += 1
+                a2, a3 = sem.ctext(ev[3].args[2]), ev[3].args[3]
+                if a2 == 'ARG2' and isinstance(a3, ast.Name) and '@' in a3.id:
+                    rec_ok = True
+                    # on this path the import list of that module was found to contain the name
+                    if any(c[1] and c[0].startswith('ARG2 in ') and '@' in c[0] for c in p.conds):
+                        imp_ok = True
+    ctx.instance('C19.R4', 'lookup_in_modules: recursion through the exporting module', 'ok' if rec_ok else 'VIOLATION', node=f, file=BASE)
+    if not rec_ok:
         ctx.violation('C19.R4', BASE, f, Model.qual(f), 'an imported name is no longer resolved in the module it is imported from', stmt='recursion through exporter')
-    ok = any(isinstance(s, ast.If) and ast.unparse(s.test) == 'name not in imports' and isinstance(s.body[0], ast.Continue) for s in walk_no_nested(f))
-    ctx.instance('C19.R4', 'lookup_in_modules: only modules that list the name are followed', 'ok' if ok else 'VIOLATION', node=f, file=BASE)
-    if not ok:
+    ctx.instance('C19.R4', 'lookup_in_modules: only modules that list the name are followed', 'ok' if imp_ok else 'VIOLATION', node=f, file=BASE)
+    if not imp_ok:
         ctx.violation('C19.R4', BASE, f, Model.qual(f), 'import lists are no longer honoured', stmt='name not in imports')
 
     # ---- R5
-    g = model.func(BASE, 'Compiler.get_compiled_type')
-    s_ = model.func(BASE, 'Compiler.set_compiled_type')
-    ok = 'self.compiled[module_name][type_name][name]' in ast.unparse(g) and 'self.compiled[module_name][type_name][name] = compiled' in ast.unparse(s_)
-    ctx.instance('C19.R5', 'compiled-type cache keyed by [module_name][type_name][name]', 'ok' if ok else 'VIOLATION', node=g, file=BASE)
+    def key_chain(e):
+        """keys used from self.compiled down to the innermost element: subscripts and .setdefault(k, ..)/.get(k) calls"""
+        if isinstance(e, ast.Subscript):
+            r_ = key_chain(e.value)
+            return None if r_ is None else r_ + [sem.ctext(e.slice)]
+        if isinstance(e, ast.Call) and isinstance(e.func, ast.Attribute) and e.func.attr in ('setdefault', 'get') and e.args:
+            r_ = key_chain(e.func.value)
+            return None if r_ is None else r_ + [sem.ctext(e.args[0])]
+        if isinstance(e, ast.Attribute) and isinstance(e.value, ast.Name) and e.value.id == 'self' and e.attr == 'compiled':
+            return []
+        return None
+    g = model.func(BASE, 'Compiler.get_compiled_type')       # (name, type_name, module_name) = ARG0..2
+    s_ = model.func(BASE, 'Compiler.set_compiled_type')      # (name, type_name, module_name, compiled) = ARG0..3
+    gps = sem.paths(g, positional=True) or []
+    sps = sem.paths(s_, positional=True) or []
+    want = ['ARG2', 'ARG1', 'ARG0']
+    got_get = [key_chain(p.outcome[3]) for p in gps if p.outcome[0] == 'return' and len(p.outcome) > 3 and key_chain(p.outcome[3]) is not None]
+    got_set = []
+    for p in sps:
+        for ev in p.events:
+            if ev[0] == 'store' and len(ev) > 3 and ev[3] is not None and sem.ctext(ev[3]) == 'ARG3':
+                for t_ in (ev[2].targets if isinstance(ev[2], ast.Assign) else []):
+                    kc = key_chain(sem.subst(t_, {k: v for k, v in p.env.items() if isinstance(v, ast.AST)}))
+                    if kc is not None:
+                        got_set.append(kc)
+    ok = bool(got_get) and all(k == want for k in got_get) and bool(got_set) and all(k == want for k in got_set)
+    ctx.instance('C19.R5', 'compiled-type cache keyed by [module_name][type_name][name] (get %s / set %s)' % (got_get[:1], got_set[:1]), 'ok' if ok else 'VIOLATION', node=g, file=BASE)
     if not ok:
         ctx.violation('C19.R5', BASE, g, Model.qual(g), 'the compiled-type cache key changed: objects of different types/modules/member names may be confused', stmt='cache key')
     cu = model.func(BASE, 'Compiler.compile_user_type')
-    src = ast.unparse(cu)
-    ok = 'self.get_compiled_type(name, type_name, module_name)' in src and 'self.set_compiled_type(name, type_name, module_name, compiled)' in src
+    cps = sem.paths(cu, positional=True) or []
+    texts = {ev[1] for p in cps for ev in p.events if ev[0] == 'call'}
+    ok = 'self.get_compiled_type(ARG0, ARG1, ARG2)' in texts and any(t_.startswith('self.set_compiled_type(ARG0, ARG1, ARG2, ') for t_ in texts)
     ctx.instance('C19.R5', 'compile_user_type reads and fills the cache under the same key', 'ok' if ok else 'VIOLATION', node=cu, file=BASE)
     if not ok:
         ctx.violation('C19.R5', BASE, cu, Model.qual(cu), 'compile_user_type uses different keys to read and fill the cache', stmt='cache read/fill key')
     # the type descriptor looked up for the reference comes with *its* module name
-    ok = '*self.lookup_type_descriptor(type_name, module_name)' in src
+    ok = any('*self.lookup_type_descriptor(ARG1, ARG2)' in t_ and t_.startswith('self.compile_type(') for t_ in texts)
     ctx.instance('C19.R5', 'compile_user_type compiles the referenced descriptor in its defining module', 'ok' if ok else 'VIOLATION', node=cu, file=BASE)
     if not ok:
         ctx.violation('C19.R5', BASE, cu, Model.qual(cu), 'the referenced type is not compiled in the module that defines it', stmt='defining module')
     sp = model.func(COMP, 'Specification.__init__')
-    src = ast.unparse(sp)
-    ok = 'if type_name in duplicated:' in src and 'del self._types[type_name]' in src and 'duplicated.add(type_name)' in src
-    ctx.instance('C19.R5', 'Specification.types drops duplicated names regardless of module order', 'ok' if ok else 'VIOLATION', node=sp, file=COMP)
-    if not ok:
+    sps = sem.paths(sp)
+    ok = None
+    if sps is not None:
+        body = [p for p in sem.with_loop_bodies(sps)]
+        inserts, deletes, skips = [], [], []
+        for p in body:
+            st_ins = [ev for ev in p.events if ev[0] == 'store' and ev[1].startswith('self._types[') and ' = ' in ev[1]]
+            st_del = [ev for ev in p.events if ev[0] == 'store' and ev[1].startswith('del self._types[')]
+            adds = [ev for ev in p.events if ev[0] == 'call' and sem.callee_name(ev[2]) == 'add']
+            if st_ins:
+                inserts.append((p, st_ins))
+            if st_del:
+                deletes.append((p, st_del, adds))
+        if inserts and deletes:
+            ok = True
+            # the set that remembers the removed names
+            dsets = {sem.ctext(ev[3].func.value) for _p, _d, adds in deletes for ev in adds}
+            if len(dsets) != 1:
+                ok = False
+            else:
+                dset = list(dsets)[0]
+                for p, st_del, adds in deletes:
+                    if not adds:
+                        ok = False
+                    if not any(c[1] and c[0].endswith(' in self._types') for c in p.conds):
+                        ok = False
+                for p, st_ins in inserts:
+                    lits = {(c[0], c[1]) for c in p.conds}
+                    if not any(t_.endswith(' in ' + dset) and not pol for t_, pol in lits) or not any(t_.endswith(' in self._types') and not pol for t_, pol in lits):
+                        ok = False
+    ctx.instance('C19.R5', 'Specification.types drops duplicated names regardless of module order', 'ok' if ok else ('undecided' if ok is None else 'VIOLATION'), nontrivial=ok is not None, node=sp, file=COMP)
+    if ok is False:
         ctx.violation('C19.R5', COMP, sp, Model.qual(sp), 'duplicate handling of Specification.types became order-dependent', stmt='duplicates')
 
 
